@@ -1837,16 +1837,16 @@ Proof.
       (split; [rewrite (fuel_of_succ _ _ Hfr3); lia | exact (nat_pres_trans _ _ _ HP12 HP3)]).
 Qed.
 
-Lemma add_tree_ok fuel t det F p lang :
+Lemma add_tree_ok fuel t det F p lang new_tree :
   Inv t det F -> parent_ok (heap_of t) p = true -> (fuel_of t <= fuel)%nat ->
-  add_ok t det F (add_tree fuel t p lang).
+  add_ok t det F (add_tree fuel t p lang new_tree).
 Proof.
   intros HI Hp Hf. unfold add_tree.
-  destruct (add_new_inv fuel t det F p (DTree 0) HI Hp Hf) as (t1 & r & F1 & Hrun & HI1 & Hfr & Hr & HP1).
+  destruct (add_new_inv fuel t det F p (DTree 0 None) HI Hp Hf) as (t1 & r & F1 & Hrun & HI1 & Hfr & Hr & HP1).
   rewrite Hrun. cbn [bind]. destruct r as [n|].
   - destruct (Hr n eq_refl) as (_ & _ & Hd). destruct (Hd eq_refl) as (nn & Hn & _).
     rewrite (get_some _ _ _ Hn). cbn [bind].
-    destruct (set_data_inv t1 det F1 n nn (DTree lang) HI1 Hn eq_refl) as (F' & HI' & HP').
+    destruct (set_data_inv t1 det F1 n nn (DTree lang (Some new_tree)) HI1 Hn eq_refl) as (F' & HI' & HP').
     eexists _, (Some n), F'. split; [reflexivity|]. split; [exact HI'|]. split; [|exact (nat_pres_trans _ _ _ HP1 HP')].
     unfold fuel_of in *. cbn [fresh with_heap]. rewrite Hfr, N.add_1_r, Nnat.N2Nat.inj_succ. lia.
   - exists t1, None, F1. split; [reflexivity|]. split; [exact HI1|]. split; [rewrite (fuel_of_succ _ _ Hfr); lia | exact HP1].
@@ -1898,12 +1898,20 @@ Proof.
     destruct r; eexists _, _, F'; (split; [reflexivity|]); (split; [exact HI' | intros _; exact HP]). }
   assert (Hsame : forall b0, exists c' b F', TOk (mkC t det, false) = TOk (c', b) /\ Inv (ts c') (TreeGraph.det c') F' /\ (b0 = false -> nat_pres F F')).
   { intros b0. eexists _, _, F. split; [reflexivity|]. split; [exact HI | intros _; apply nat_pres_refl]. }
-  destruct o as [p tag ats | p name kvs text | p text | p | p lang | n k v | n | p n | n]; cbn [exec ts TreeGraph.det is_extract].
+  destruct o as [p tag ats | p name kvs text | p text | p | p lang ntr | d0 | n k v | n | p n | n]; cbn [exec ts TreeGraph.det is_extract].
   - destruct (parent_ok (heap_of t) p) eqn:Hp; [|apply Hsame]. apply Hadd. eapply add_elt_with_attrs_ok; eauto.
   - destruct (parent_ok (heap_of t) p) eqn:Hp; [|apply Hsame]. apply Hadd. eapply add_xml_full_ok; eauto.
   - destruct (parent_ok (heap_of t) p) eqn:Hp; [|apply Hsame]. apply Hadd. unfold add_text. eapply add_new_ok; eauto.
   - destruct (parent_ok (heap_of t) p) eqn:Hp; [|apply Hsame]. apply Hadd. unfold add_cdata. eapply add_new_ok; eauto.
   - destruct (parent_ok (heap_of t) p) eqn:Hp; [|apply Hsame]. apply Hadd. eapply add_tree_ok; eauto.
+  - (* tree == NULL: the node is created and destroyed again *)
+    pose proof (inv_fresh_free _ _ _ HI) as Hfree. destruct HI as (HL & Hroots & Hb).
+    cbn [alloc]. eexists _, _, F. split; [reflexivity|]. split; [|intros _; apply nat_pres_refl].
+    cbn [ts TreeGraph.det]. split; [|split].
+    + eapply Links_ext; [|exact HL]. intros i. cbn [heap_of with_heap]. unfold free_node, upd.
+      destruct (N.eqb_spec i (fresh t)) as [->|_]; [symmetry; exact Hfree | reflexivity].
+    + exact Hroots.
+    + intros i Hi. cbn [fresh with_heap]. specialize (Hb i Hi). lia.
   - (* attribute added to an element *)
     destruct (heap_of t n) as [nn|] eqn:Hn; [|apply Hsame]. destruct (n_data nn) eqn:Hd; try apply Hsame.
     unfold node_add_xml_attrs.
@@ -2368,4 +2376,504 @@ Corollary equal_shapes_equal_walks c1 c2 tr1 tr2 :
   enc_walk (S (fuel_of (ts c2))) (heap_of (ts c2)) (root (ts c2)).
 Proof.
   intros H1 H2 T1 T2 E. rewrite (enc_walk_shape c1 tr1 H1 T1), (enc_walk_shape c2 tr2 H2 T2), E. reflexivity.
+Qed.
+
+(* ------------------------------------------------------------------ *)
+(* ownership of the nested tree offered to wbxml_tree_add_tree          *)
+
+(* refused (NULL result): the state is the old heap (the node created for the call has been destroyed while its tree
+   pointer was still NULL), so no node refers to the offered tree: it stays with the caller, who destroys it once *)
+Theorem add_tree_refused_keeps_tree fuel t p lang tid t' :
+  add_tree fuel t p lang tid = TOk (t', None) ->
+  heap_of t (fresh t) = None ->
+  (forall i, heap_of t' i = heap_of t i) /\ (forall i, node_tree (heap_of t) i <> Some tid -> node_tree (heap_of t') i <> Some tid).
+Proof.
+  unfold add_tree, add_new, alloc. intros H Hfree.
+  destruct (add_node fuel _ p (fresh t)) as [t2| |] eqn:E; cbn [bind] in H.
+  - destruct (get (heap_of t2) (fresh t)); cbn [bind] in H; discriminate.
+  - injection H as <-. cbn [heap_of with_heap].
+    assert (Heq : forall i, free_node (upd (heap_of t) (fresh t) (Some (mkN (DTree 0 None) None None None None))) (fresh t) i = heap_of t i).
+    { intros i. unfold free_node, upd. destruct (N.eqb_spec i (fresh t)) as [->|_]; [symmetry; exact Hfree | reflexivity]. }
+    split; [exact Heq|]. intros i Hi. unfold node_tree in *. rewrite Heq. exact Hi.
+  - discriminate.
+Qed.
+
+(* accepted: the new node, and only it, now owns the offered tree *)
+Theorem add_tree_accepted_owns_tree fuel t p lang tid t' n :
+  add_tree fuel t p lang tid = TOk (t', Some n) -> node_tree (heap_of t') n = Some tid.
+Proof.
+  unfold add_tree. intros H. destruct (add_new fuel t p (DTree 0 None)) as [[t1 [m|]]| |]; cbn [bind] in H; try discriminate.
+  destruct (get (heap_of t1) m) as [nn| |]; cbn [bind] in H; try discriminate.
+  injection H as <- <-. unfold node_tree. cbn [heap_of with_heap]. rewrite upd_same. reflexivity.
+Qed.
+
+(* the same call with tree == NULL (OpAddNull): the heap is unchanged as well *)
+Theorem add_on_null_tree_changes_nothing l c d c' b : exec l c (OpAddNull d) = TOk (c', b) -> heap_of (ts c) (fresh (ts c)) = None ->
+  b = false /\ det c' = det c /\ root (ts c') = root (ts c) /\ forall i, heap_of (ts c') i = heap_of (ts c) i.
+Proof.
+  cbn [exec alloc]. intros [= <- <-] Hfree. cbn [ts det root heap_of with_heap]. repeat split.
+  intros i. unfold free_node, upd. destruct (N.eqb_spec i (fresh (ts c))) as [->|_]; [symmetry; exact Hfree | reflexivity].
+Qed.
+
+(* add_node with a parent INSIDE the tree (the usual case): the tree becomes append_merge_t tree q tn, the other
+   detached sub-trees are untouched.  (The parent may be any node of the forest except a node of tn itself: inserting a
+   sub-tree below one of its own nodes makes the C build a cycle; no specification exists for that.) *)
+Theorem add_node_in_tree fuel t det tr D1 tn D2 q :
+  Inv t det (tr :: D1 ++ tn :: D2) -> In (rid tn) det -> In q (ids tr) ->
+  parent_ok (heap_of t) (Some q) = true -> (fuel_of t <= fuel)%nat ->
+  exists t', add_node fuel t (Some q) (rid tn) = TOk t' /\
+             Inv t' (remove_id (rid tn) det) (append_merge_t tr q tn :: D1 ++ D2).
+Proof.
+  intros HI Hm Hq Hp Hf.
+  assert (HN : NoDup (ids_l (tr :: D1 ++ tn :: D2))) by (destruct HI as ((_ & H & _) & _); exact H).
+  destruct (add_node_spec fuel t det (tr :: D1) tn D2 q HI Hm) as (t' & Hrun & HI'); [| exact Hp | exact Hf |].
+  - cbn [app]. rewrite ids_l_cons. apply in_or_app. auto.
+  - exists t'. split; [exact Hrun|]. cbn [app] in HI'. unfold append_merge in HI'. cbn [map] in HI'.
+    assert (Hn : ~ In q (ids_l (D1 ++ D2))).
+    { rewrite ids_l_cons, NoDup_app_iff in HN. destruct HN as (_ & _ & H3). intros Hin. apply (H3 q Hq).
+      rewrite ids_l_app in Hin. rewrite ids_l_mid. clear - Hin. in_norm. tauto. }
+    rewrite (proj2 (append_merge_notin q tn) (D1 ++ D2) Hn) in HI'. exact HI'.
+Qed.
+
+(* ------------------------------------------------------------------ *)
+(* composition of replacements                                          *)
+
+Lemma find_t_root new : find_t (rid new) new = Some new.
+Proof. destruct new as [i d cs]. rewrite find_t_unfold. cbn [rid]. rewrite N.eqb_refl. reflexivity. Qed.
+
+Lemma find_replace_same p new : rid new = p ->
+  (forall t, In p (ids t) -> find_t p (replace_t p new t) = Some new) /\
+  (forall ts, In p (ids_l ts) -> find_l p (replace_l p new ts) = Some new).
+Proof.
+  intros Hn. apply rt_mut_ind.
+  - intros i d cs IH Hin. cbn [replace_t]. destruct (N.eqb_spec i p) as [->|Hne]; [rewrite <- Hn; apply find_t_root|].
+    rewrite find_t_unfold. destruct (N.eqb_spec i p); [contradiction|]. apply IH.
+    rewrite ids_unfold in Hin. destruct Hin; [contradiction | assumption].
+  - intros [].
+  - intros t ts IHt IHts Hin. unfold replace_l. cbn [map]. fold (replace_l p new ts). rewrite find_l_cons.
+    destruct (in_dec N.eq_dec p (ids t)) as [H|H].
+    + rewrite (IHt H). reflexivity.
+    + rewrite (proj1 (proj1 (replace_notin p new) t H)), (proj1 (find_notin p) t H). apply IHts.
+      rewrite ids_l_cons in Hin. apply in_app_or in Hin. tauto.
+Qed.
+
+Lemma replace_replace p new1 new2 : rid new1 = p ->
+  (forall t, replace_t p new2 (replace_t p new1 t) = replace_t p new2 t) /\
+  (forall ts, replace_l p new2 (replace_l p new1 ts) = replace_l p new2 ts).
+Proof.
+  intros Hn. apply rt_mut_ind.
+  - intros i d cs IH. cbn [replace_t]. destruct (N.eqb_spec i p) as [->|Hne].
+    + destruct new1 as [j dj cj]. cbn [rid] in Hn. subst j. cbn [replace_t]. rewrite N.eqb_refl. reflexivity.
+    + cbn [replace_t]. destruct (N.eqb_spec i p); [contradiction|]. fold (replace_l p new1 cs).
+      fold (replace_l p new2 (replace_l p new1 cs)). rewrite IH. reflexivity.
+  - reflexivity.
+  - intros t ts IHt IHts. unfold replace_l in *. cbn [map]. rewrite IHt, IHts. reflexivity.
+Qed.
+
+Lemma replace_inner n X p P : p <> n ->
+  (forall t, ~ In n (ids t) -> replace_t n X (replace_t p P t) = replace_t p (replace_t n X P) t) /\
+  (forall ts, ~ In n (ids_l ts) -> replace_l n X (replace_l p P ts) = replace_l p (replace_t n X P) ts).
+Proof.
+  intros Hpn. apply rt_mut_ind.
+  - intros i d cs IH Hni. rewrite ids_unfold in Hni. cbn [replace_t]. destruct (N.eqb_spec i p) as [->|Hne]; [reflexivity|].
+    cbn [replace_t]. destruct (N.eqb_spec i n) as [->|_]; [exfalso; apply Hni; simpl; auto|].
+    fold (replace_l p P cs). fold (replace_l n X (replace_l p P cs)). rewrite IH; [reflexivity|]. intro; apply Hni; simpl; auto.
+  - reflexivity.
+  - intros t ts IHt IHts Hni. rewrite ids_l_cons in Hni. unfold replace_l in *. cbn [map].
+    rewrite IHt, IHts; [reflexivity | |]; intro; apply Hni, in_or_app; auto.
+Qed.
+
+Lemma replace_last_child n X p d cs old : rid old = n -> p <> n -> ~ In n (ids_l cs) ->
+  replace_t n X (R p d (cs ++ [old])) = R p d (cs ++ [X]).
+Proof.
+  intros Ho Hpn Hni. cbn [replace_t]. destruct (N.eqb_spec p n); [contradiction|]. f_equal. rewrite map_app. cbn [map].
+  fold (replace_l n X cs). rewrite (proj1 (proj2 (replace_notin n X) cs Hni)). f_equal. f_equal.
+  destruct old as [j dj cj]. cbn [rid] in Ho. subst j. cbn [replace_t]. rewrite N.eqb_refl. reflexivity.
+Qed.
+
+(* ------------------------------------------------------------------ *)
+(* the add functions with the forest they produce made explicit        *)
+
+Lemma add_new_shape fuel t det F q ds cs d :
+  Inv t det F -> find_l q F = Some (R q ds cs) -> is_text ds = false -> (fuel_of t <= fuel)%nat ->
+  exists t', add_new fuel t (Some q) d = TOk (t', Some (fresh t)) /\
+             Inv t' det (replace_l q (R q ds (snoc_merge cs (R (fresh t) d []))) F) /\ fresh t' = fresh t + 1 /\
+             root t' = root t /\ ~ In (fresh t) (ids_l F) /\
+             (is_text d = false -> exists nn, heap_of t' (fresh t) = Some nn /\ n_data nn = d).
+Proof.
+  intros HI Hfind Hds Hfuel. pose proof (inv_fresh_free _ _ _ HI) as Hfree. pose proof (inv_sizes _ _ _ HI) as [Hsz _].
+  destruct HI as (HL & Hroots & Hb).
+  set (n := fresh t). set (h1 := upd (heap_of t) n (Some (mkN d None None None None))).
+  set (t1 := mkT h1 (root t) (cur_page t) (n + 1)).
+  assert (HL1 : Links h1 (F ++ [R n d []])) by (apply alloc_forest; assumption).
+  assert (Hfind' : find_l q (F ++ []) = Some (R q ds cs)) by (rewrite app_nil_r; exact Hfind).
+  assert (Hnot : ~ In n (ids_l F)) by (intros Hin; specialize (Hb n Hin); unfold n in Hb; lia).
+  destruct (add_node_forest fuel t1 F (R n d []) [] q (R q ds cs) HL1 Hfind' Hds) as (h' & Hrun & HL' & Hincl & _).
+  { specialize (Hsz q _ Hfind). rewrite size_unfold in Hsz. cbn [rkids]. pose proof (length_le_size_l cs). unfold fuel_of in Hfuel. lia. }
+  unfold add_new, alloc. fold n h1 t1. cbn [rid] in Hrun. rewrite Hrun.
+  exists (with_heap t1 h'). split; [reflexivity|]. cbn [rdata rkids] in HL'. rewrite app_nil_r in HL', Hincl.
+  split; [|split; [reflexivity | split; [reflexivity | split; [exact Hnot|]]]].
+  - split; [exact HL'|]. split.
+    + rewrite map_rid_replace by reflexivity. exact Hroots.
+    + intros i Hi. cbn [fresh with_heap t1]. apply Hincl in Hi. rewrite ids_l_app, ids_l_single in Hi.
+      apply in_app_or in Hi as [Hi|[<-|[]]]; [specialize (Hb i Hi)|]; unfold n; lia.
+  - intros Hd. destruct (add_node_data fuel t1 (Some q) n _ (mkN d None None None None) Hrun) as (nn' & E1 & E2);
+      [unfold t1, h1; cbn [heap_of]; apply upd_same | exact Hd |].
+    exists nn'. split; [exact E1 | exact E2].
+Qed.
+
+Lemma set_data_shape t det F n sub r d' :
+  Inv t det F -> find_l n F = Some sub -> heap_of t n = Some r -> is_text d' = false ->
+  Inv (with_heap t (upd (heap_of t) n (Some (set_data r d')))) det (replace_l n (R n d' (rkids sub)) F).
+Proof.
+  intros (HL & Hroots & Hb) Hfind Hn Hd. destruct (proj2 (find_some n) _ _ Hfind) as (Hrid & _).
+  split; [|split].
+  - cbn [heap_of with_heap]. eapply set_data_forest; eauto.
+  - rewrite map_rid_replace by reflexivity. exact Hroots.
+  - intros i Hi. cbn [fresh with_heap]. apply Hb.
+    destruct HL as (_ & HN & _). destruct (proj2 (ids_replace_split n (R n d' (rkids sub))) _ _ Hfind HN) as (A & B & EA & EB & _).
+    rewrite EB in Hi. rewrite EA. destruct sub as [n' ds cs]. cbn [rid] in Hrid. subst n'. cbn [rkids] in *.
+    rewrite ids_unfold in *. exact Hi.
+Qed.
+
+(* ------------------------------------------------------------------ *)
+(* the XML front end builds exactly the document's denotation           *)
+
+Definition last_not_text (cs : list rt) : bool :=
+  match rev cs with [] => true | x :: _ => negb (is_text (rdata x)) end.
+
+Lemma snoc_merge_plain cs tn : last_not_text cs = true \/ is_text (rdata tn) = false -> snoc_merge cs tn = cs ++ [tn].
+Proof.
+  intros H. destruct (rev_cases cs) as [->|(l & x & ->)]; [reflexivity|].
+  rewrite snoc_merge_app, <- app_assoc. unfold last_not_text in H. rewrite rev_app_distr in H. cbn [rev app] in H.
+  destruct x as [m dm mk]. destruct tn as [i di ncs]. cbn [rdata] in H.
+  destruct dm; try reflexivity. destruct di; try reflexivity. cbn in H. destruct H; discriminate.
+Qed.
+
+Lemma snoc_merge_text cs0 m a mk n b ncs :
+  snoc_merge (cs0 ++ [R m (DText a) mk]) (R n (DText b) ncs) = cs0 ++ [R n (DText (a ++ b)) ncs].
+Proof. rewrite snoc_merge_app. reflexivity. Qed.
+
+Lemma inv_find_in t det F p s : Inv t det F -> find_l p F = Some s -> In p (ids_l F) /\ NoDup (ids_l F).
+Proof. intros ((_ & HN & _) & _) H. split; [exact (proj1 (proj2 (proj2 (find_some p) _ _ H))) | exact HN]. Qed.
+
+Lemma find_last_child F p d cs tx : NoDup (ids_l F) -> find_l p F = Some (R p d (cs ++ [tx])) -> find_l (rid tx) F = Some tx.
+Proof.
+  intros HN Hf. destruct (proj2 (ids_replace_split p (R p d [])) _ _ Hf HN) as (A & B & EA & _ & _).
+  assert (Nsub : NoDup (ids (R p d (cs ++ [tx])))) by (rewrite EA in HN; apply nodup_mid in HN; tauto).
+  exact (proj2 (find_compose p (rid tx) tx) F _ HN Hf (find_child (rid tx) cs tx [] p d eq_refl Nsub)).
+Qed.
+
+Lemma fresh_fuel t t' k : fresh t' = fresh t + N.of_nat k -> fuel_of t' = (fuel_of t + k)%nat.
+Proof. unfold fuel_of. intros ->. rewrite Nnat.N2Nat.inj_add, Nnat.Nat2N.id. lia. Qed.
+
+Lemma replace_self p s :
+  (forall t, NoDup (ids t) -> find_t p t = Some s -> replace_t p s t = t) /\
+  (forall ts, NoDup (ids_l ts) -> find_l p ts = Some s -> replace_l p s ts = ts).
+Proof.
+  apply rt_mut_ind.
+  - intros i d cs IH Hnd. rewrite find_t_unfold. cbn [replace_t]. destruct (N.eqb_spec i p); [intros [= <-]; reflexivity|].
+    intros H. rewrite ids_unfold in Hnd. apply NoDup_cons_iff in Hnd as [_ Hnd]. fold (replace_l p s cs). rewrite (IH Hnd H). reflexivity.
+  - reflexivity.
+  - intros t ts IHt IHts Hnd. rewrite find_l_cons, ids_l_cons in *. apply NoDup_app_iff in Hnd as (N1 & N2 & N3).
+    unfold replace_l in *. cbn [map]. destruct (find_t p t) eqn:E.
+    + intros [= ->]. rewrite (IHt N1 eq_refl).
+      assert (Hn : ~ In p (ids_l ts)) by (apply N3; exact (proj1 (proj2 (proj1 (find_some p) _ _ E)))).
+      pose proof (proj1 (proj2 (replace_notin p s) ts Hn)) as E2. unfold replace_l in E2. rewrite E2. reflexivity.
+    + intros Hf. rewrite (proj1 (proj1 (replace_notin p s) t (proj1 (find_none p) t E))), (IHts N2 Hf). reflexivity.
+Qed.
+
+(* further chunks of a text: joined to the text node that is the last child *)
+Lemma fe_texts_more fuel det p d cs0 : is_text d = false -> forall chunks t F m acc,
+  Inv t det F -> find_l p F = Some (R p d (cs0 ++ [R m (DText acc) []])) -> (fuel_of t + length chunks <= fuel)%nat ->
+  exists t' m', fe_texts fuel t (Some p) chunks = TOk t' /\
+    Inv t' det (replace_l p (R p d (cs0 ++ [R m' (DText (acc ++ concat chunks)) []])) F) /\
+    fresh t' = fresh t + N.of_nat (length chunks) /\ root t' = root t.
+Proof.
+  intros Hd. induction chunks as [|ch r IH]; intros t F m acc HI Hf Hfu.
+  - exists t, m. cbn [fe_texts concat length]. rewrite app_nil_r, N.add_0_r. split; [reflexivity|]. split; [|auto].
+    destruct (inv_find_in _ _ _ _ _ HI Hf) as [Hin HN]. rewrite (proj2 (replace_self p _) F HN Hf). exact HI.
+  - cbn [fe_texts length concat] in *. unfold add_text.
+    destruct (add_new_shape fuel t det F p d _ (DText ch) HI Hf Hd) as (t1 & Hrun & HI1 & Hfr & Hroot & Hnot & _); [lia|].
+    rewrite Hrun. cbn [bind]. rewrite snoc_merge_text in HI1.
+    destruct (inv_find_in _ _ _ _ _ HI Hf) as [Hin HN].
+    assert (Hf1 : find_l p (replace_l p (R p d (cs0 ++ [R (fresh t) (DText (acc ++ ch)) []])) F) =
+                  Some (R p d (cs0 ++ [R (fresh t) (DText (acc ++ ch)) []]))) by (apply (find_replace_same p (R p d (cs0 ++ [R (fresh t) (DText (acc ++ ch)) []])) eq_refl); exact Hin).
+    destruct (IH t1 _ (fresh t) (acc ++ ch) HI1 Hf1) as (t' & m' & Hrun' & HI' & Hfr' & Hroot');
+      [rewrite (fresh_fuel t t1 1) by (rewrite Hfr; reflexivity); lia|].
+    exists t', m'. split; [exact Hrun'|]. rewrite (proj2 (replace_replace p (R p d (cs0 ++ [R (fresh t) (DText (acc ++ ch)) []])) _ eq_refl)) in HI'. rewrite <- app_assoc in HI'.
+    split; [exact HI'|]. split; [rewrite Hfr', Hfr; lia | congruence].
+Qed.
+
+(* a text item (one or more chunks) after something that is not text *)
+Lemma fe_texts_first fuel det p d cs ch r t F :
+  is_text d = false -> last_not_text cs = true ->
+  Inv t det F -> find_l p F = Some (R p d cs) -> (fuel_of t + length (ch :: r) <= fuel)%nat ->
+  exists t' m', fe_texts fuel t (Some p) (ch :: r) = TOk t' /\
+    Inv t' det (replace_l p (R p d (cs ++ [R m' (DText (concat (ch :: r))) []])) F) /\
+    fresh t' = fresh t + N.of_nat (length (ch :: r)) /\ root t' = root t.
+Proof.
+  intros Hd Hl HI Hf Hfu. cbn [fe_texts length concat] in *. unfold add_text.
+  destruct (add_new_shape fuel t det F p d _ (DText ch) HI Hf Hd) as (t1 & Hrun & HI1 & Hfr & Hroot & Hnot & _); [lia|].
+  rewrite Hrun. cbn [bind]. rewrite snoc_merge_plain in HI1 by (left; exact Hl).
+  destruct (inv_find_in _ _ _ _ _ HI Hf) as [Hin HN].
+  assert (Hf1 : find_l p (replace_l p (R p d (cs ++ [R (fresh t) (DText ch) []])) F) =
+                Some (R p d (cs ++ [R (fresh t) (DText ch) []]))) by (apply (find_replace_same p (R p d (cs ++ [R (fresh t) (DText ch) []])) eq_refl); exact Hin).
+  destruct (fe_texts_more fuel det p d cs Hd r t1 _ (fresh t) ch HI1 Hf1) as (t' & m' & Hrun' & HI' & Hfr' & Hroot');
+    [rewrite (fresh_fuel t t1 1) by (rewrite Hfr; reflexivity); lia|].
+  exists t', m'. split; [exact Hrun'|]. rewrite (proj2 (replace_replace p (R p d (cs ++ [R (fresh t) (DText ch) []])) _ eq_refl)) in HI'.
+  split; [exact HI'|]. split; [rewrite Hfr', Hfr; lia | congruence].
+Qed.
+
+Definition xelt_data (l : tlang) (name : bytes) (kvs : list (bytes * bytes)) : data :=
+  DElt (snd (resolve_xml_elt l name)) (map (fun kv => resolve_xml_attr l (fst kv) (snd kv)) kvs).
+
+(* start_element: the new element, with its attributes, becomes the last child of `current` *)
+Lemma fe_start_element fuel l det p d cs name kvs t F :
+  is_text d = false -> Inv t det F -> find_l p F = Some (R p d cs) -> (fuel_of t <= fuel)%nat ->
+  exists t', add_xml_elt_with_attrs fuel l t (Some p) name kvs = TOk (t', Some (fresh t)) /\
+    Inv t' det (replace_l p (R p d (cs ++ [R (fresh t) (xelt_data l name kvs) []])) F) /\
+    fresh t' = fresh t + 1 /\ root t' = root t /\ ~ In (fresh t) (ids_l F) /\ p <> fresh t.
+Proof.
+  intros Hd HI Hf Hfu. unfold add_xml_elt_with_attrs, add_xml_elt, xelt_data.
+  destruct (resolve_xml_elt l name) as [cp tag]. cbn [snd].
+  set (t0 := mkT (heap_of t) (root t) cp (fresh t)).
+  assert (HI0 : Inv t0 det F) by exact HI.
+  destruct (add_new_shape fuel t0 det F p d cs (DElt tag []) HI0 Hf Hd) as (t1 & Hrun & HI1 & Hfr & Hroot & Hnot & Hdat);
+    [unfold fuel_of in *; cbn [fresh t0]; exact Hfu|].
+  cbn [fresh t0 root] in *. rewrite Hrun. cbn [bind].
+  rewrite snoc_merge_plain in HI1 by (right; reflexivity).
+  destruct (inv_find_in _ _ _ _ _ HI Hf) as [Hin HN].
+  assert (Hpn : p <> fresh t) by (intros ->; exact (Hnot Hin)).
+  destruct kvs as [|kv kvs].
+  - exists t1. cbn [map]. auto 10.
+  - destruct (Hdat eq_refl) as (nn & Hn & Hdn).
+    unfold node_add_xml_attrs, node_add_attrs. rewrite (get_some _ _ _ Hn). cbn [bind]. rewrite Hdn. cbn [bind app].
+    eexists. split; [reflexivity|].
+    set (newP := R p d (cs ++ [R (fresh t) (DElt tag []) []])) in *.
+    assert (HfP : find_l p (replace_l p newP F) = Some newP) by (apply (find_replace_same p newP eq_refl); exact Hin).
+    assert (HN1 : NoDup (ids_l (replace_l p newP F))) by (destruct HI1 as ((_ & H & _) & _); exact H).
+    pose proof (find_last_child _ p d cs (R (fresh t) (DElt tag []) []) HN1 HfP) as Hfn. cbn [rid] in Hfn.
+    pose proof (set_data_shape t1 det _ (fresh t) _ nn (DElt tag (map (fun kv0 => resolve_xml_attr l (fst kv0) (snd kv0)) (kv :: kvs))) HI1 Hfn Hn eq_refl) as HI2.
+    cbn [rkids] in HI2.
+    rewrite (proj2 (replace_inner (fresh t) _ p newP Hpn) F Hnot) in HI2.
+    assert (Hncs : ~ In (fresh t) (ids_l cs)).
+    { intros Hc. apply Hnot. apply (proj2 (proj2 (proj2 (find_some p) _ _ Hf))). rewrite ids_unfold. right. exact Hc. }
+    unfold newP in HI2. rewrite (replace_last_child (fresh t) _ p d cs (R (fresh t) (DElt tag []) []) eq_refl Hpn Hncs) in HI2.
+    split; [exact HI2|]. cbn [fresh with_heap root]. auto.
+Qed.
+
+Lemma xnode_ind' (P : xnode -> Prop) :
+  (forall chunks, P (XText chunks)) -> (forall name kvs kids, Forall P kids -> P (XElt name kvs kids)) -> forall x, P x.
+Proof.
+  intros HT HE. fix IH 1. intros [name kvs kids | chunks]; [|apply HT]. apply HE.
+  induction kids as [|k kids IHk]; constructor; [apply IH | exact IHk].
+Qed.
+
+Definition kloop (fuel : nat) (l : tlang) :=
+  fix kids_loop (t : tstate) (cur : option id) (ks : list xnode) {struct ks} : tres (tstate * option id) :=
+    match ks with
+    | [] => TOk (t, cur)
+    | k :: rest => do r <- fe_node fuel l t cur k; kids_loop (fst r) (snd r) rest
+    end.
+
+Lemma fe_node_elt_unfold fuel l t cur name kvs kids :
+  fe_node fuel l t cur (XElt name kvs kids) =
+  do r <- add_xml_elt_with_attrs fuel l t cur name kvs;
+  match r with
+  | (t1, Some n) =>
+    do r2 <- kloop fuel l t1 (Some n) kids;
+    match snd r2 with
+    | Some c => do cn <- get (heap_of (fst r2)) c;
+                TOk (fst r2, match n_parent cn with Some p => Some p | None => Some c end)
+    | None => TFail
+    end
+  | (_, None) => TFail
+  end.
+Proof. reflexivity. Qed.
+
+Definition xsize_l (ks : list xnode) : nat := list_sum (map xsize ks).
+
+Lemma xsize_l_cons k ks : xsize_l (k :: ks) = (xsize k + xsize_l ks)%nat.
+Proof. reflexivity. Qed.
+
+Lemma xsize_elt name kvs kids : xsize (XElt name kvs kids) = S (xsize_l kids).
+Proof. reflexivity. Qed.
+
+Definition head_is_xtext (ks : list xnode) : bool := match ks with k :: _ => is_xtext k | [] => false end.
+
+Lemma last_not_text_snoc cs x : last_not_text (cs ++ [x]) = negb (is_text (rdata x)).
+Proof. unfold last_not_text. rewrite rev_app_distr. reflexivity. Qed.
+
+Section FrontEnd.
+  Variables (fuel : nat) (l : tlang) (det : list id).
+
+  (* what processing one item below `current` = p establishes *)
+  Definition fe_item_ok (x : xnode) : Prop :=
+    forall t F p d cs, is_text d = false -> Inv t det F -> find_l p F = Some (R p d cs) -> xnf x = true ->
+      (is_xtext x = true -> last_not_text cs = true) -> (fuel_of t + xsize x <= fuel)%nat ->
+      exists t' ks, fe_node fuel l t (Some p) x = TOk (t', Some p) /\
+        Inv t' det (replace_l p (R p d (cs ++ ks)) F) /\ map erase ks = xdenote l x /\
+        fresh t' = fresh t + N.of_nat (xsize x) /\ root t' = root t /\
+        (is_xtext x = false -> last_not_text (cs ++ ks) = true).
+
+  Lemma fe_kids_ok n dn : is_text dn = false -> forall kids, Forall fe_item_ok kids ->
+    forall t F done, Inv t det F -> find_l n F = Some (R n dn done) ->
+      no_adjacent_xtext kids = true -> forallb xnf kids = true ->
+      (head_is_xtext kids = true -> last_not_text done = true) -> (fuel_of t + xsize_l kids <= fuel)%nat ->
+      exists t' new, kloop fuel l t (Some n) kids = TOk (t', Some n) /\
+        Inv t' det (replace_l n (R n dn (done ++ new)) F) /\ map erase new = flat_map (xdenote l) kids /\
+        fresh t' = fresh t + N.of_nat (xsize_l kids) /\ root t' = root t.
+  Proof.
+    intros Hdn kids HF. induction HF as [|k kids Hk _ IH]; intros t F done HI Hf Hadj Hnf Hhead Hfu.
+    - exists t, []. cbn [kloop]. rewrite app_nil_r. unfold xsize_l. cbn. rewrite N.add_0_r.
+      split; [reflexivity|]. split; [|auto].
+      destruct (inv_find_in _ _ _ _ _ HI Hf) as [_ HN]. rewrite (proj2 (replace_self n _) F HN Hf). exact HI.
+    - cbn [forallb] in Hnf. apply andb_prop in Hnf as [Hnfk Hnfr].
+      rewrite xsize_l_cons in Hfu.
+      destruct (Hk t F n dn done Hdn HI Hf Hnfk) as (t1 & ks & Hrun & HI1 & Her & Hfr & Hroot & Hlast);
+        [exact Hhead | lia |].
+      cbn [kloop]. rewrite Hrun. cbn [bind fst snd]. fold (kloop fuel l).
+      destruct (inv_find_in _ _ _ _ _ HI Hf) as [Hin HN].
+      assert (Hf1 : find_l n (replace_l n (R n dn (done ++ ks)) F) = Some (R n dn (done ++ ks)))
+        by (apply (find_replace_same n (R n dn (done ++ ks)) eq_refl); exact Hin).
+      destruct (IH t1 _ (done ++ ks) HI1 Hf1) as (t' & new & Hrun' & HI' & Her' & Hfr' & Hroot').
+      { destruct kids as [|k2 r]; [reflexivity|]. cbn [no_adjacent_xtext] in Hadj. apply andb_prop in Hadj. tauto. }
+      { exact Hnfr. }
+      { intros Hh. apply Hlast. destruct kids as [|k2 r]; [discriminate|]. cbn [head_is_xtext] in Hh.
+        cbn [no_adjacent_xtext] in Hadj. apply andb_prop in Hadj as [Ha _]. rewrite Hh, andb_true_r in Ha.
+        destruct (is_xtext k); [discriminate | reflexivity]. }
+      { rewrite (fresh_fuel t t1 (xsize k) Hfr). lia. }
+      exists t', (ks ++ new). split; [exact Hrun'|].
+      rewrite (proj2 (replace_replace n (R n dn (done ++ ks)) _ eq_refl)) in HI'. rewrite <- app_assoc in HI'.
+      split; [exact HI'|]. split; [rewrite map_app, Her, Her'; reflexivity|].
+      split; [|congruence]. rewrite Hfr', Hfr, xsize_l_cons. lia.
+  Qed.
+
+  Lemma child_parent t F p d cs n dn ks : Inv t det F -> find_l p F = Some (R p d (cs ++ [R n dn ks])) ->
+    exists nn, heap_of t n = Some nn /\ n_parent nn = Some p.
+  Proof.
+    intros ((HF & HN & _) & _) Hf.
+    destruct (find_rep_forest _ _ _ _ HF Hf) as (parq & prevq & nxtq & Hsub).
+    destruct (proj2 (ids_replace_split p (R p d [])) _ _ Hf HN) as (A & B & EA & _ & _).
+    assert (Nsub : NoDup (ids (R p d (cs ++ R n dn ks :: [])))) by (rewrite EA in HN; apply nodup_mid in HN; tauto).
+    destruct (ex_facts t p n d dn parq prevq nxtq cs [] ks Hsub Nsub) as (_ & Q3 & _).
+    eexists. split; [exact Q3 | reflexivity].
+  Qed.
+
+  Theorem fe_node_builds : forall x, fe_item_ok x.
+  Proof.
+    induction x as [chunks | name kvs kids IHk] using xnode_ind'; intros t F p d cs Hd HI Hf Hnf Hx Hfu.
+    - (* a text item *)
+      destruct chunks as [|ch r]; [discriminate|]. cbn [xsize] in *.
+      destruct (fe_texts_first fuel det p d cs ch r t F Hd (Hx eq_refl) HI Hf Hfu) as (t' & m' & Hrun & HI' & Hfr & Hroot).
+      exists t', [R m' (DText (concat (ch :: r))) []]. cbn [fe_node]. rewrite Hrun. cbn [bind].
+      split; [reflexivity|]. split; [exact HI'|]. split; [reflexivity|]. split; [exact Hfr|]. split; [exact Hroot | discriminate].
+    - (* an element *)
+      cbn [xnf] in Hnf. apply andb_prop in Hnf as [Hadj Hnfk]. rewrite xsize_elt in Hfu.
+      destruct (fe_start_element fuel l det p d cs name kvs t F Hd HI Hf) as (t1 & Hrun & HI1 & Hfr & Hroot & Hnot & Hpn); [lia|].
+      rewrite fe_node_elt_unfold, Hrun. cbn [bind].
+      set (n := fresh t) in *. set (dn := xelt_data l name kvs) in *.
+      destruct (inv_find_in _ _ _ _ _ HI Hf) as [Hin HN].
+      set (newP := R p d (cs ++ [R n dn []])) in *.
+      assert (HfP : find_l p (replace_l p newP F) = Some newP) by (apply (find_replace_same p newP eq_refl); exact Hin).
+      assert (HN1 : NoDup (ids_l (replace_l p newP F))) by (destruct HI1 as ((_ & H & _) & _); exact H).
+      pose proof (find_last_child _ p d cs (R n dn []) HN1 HfP) as Hfn. cbn [rid] in Hfn.
+      destruct (fe_kids_ok n dn eq_refl kids IHk t1 _ [] HI1 Hfn Hadj Hnfk) as (t2 & new & Hrun2 & HI2 & Her & Hfr2 & Hroot2);
+        [reflexivity | rewrite (fresh_fuel t t1 1) by (rewrite Hfr; reflexivity); lia |].
+      rewrite Hrun2. cbn [bind fst snd app] in *.
+      rewrite (proj2 (replace_inner n _ p newP Hpn) F Hnot) in HI2.
+      assert (Hncs : ~ In n (ids_l cs)).
+      { intros Hc. apply Hnot. apply (proj2 (proj2 (proj2 (find_some p) _ _ Hf))). rewrite ids_unfold. right. exact Hc. }
+      unfold newP in HI2. rewrite (replace_last_child n _ p d cs (R n dn []) eq_refl Hpn Hncs) in HI2.
+      assert (HfP2 : find_l p (replace_l p (R p d (cs ++ [R n dn new])) F) = Some (R p d (cs ++ [R n dn new])))
+        by (apply (find_replace_same p (R p d (cs ++ [R n dn new])) eq_refl); exact Hin).
+      destruct (child_parent _ _ _ _ _ _ _ _ HI2 HfP2) as (nn & Hnn & Hpar).
+      rewrite (get_some _ _ _ Hnn). cbn [bind]. rewrite Hpar.
+      exists t2, [R n dn new]. split; [reflexivity|]. split; [exact HI2|].
+      split; [cbn [map erase xdenote]; unfold dn, xelt_data; rewrite Her; reflexivity|].
+      split; [rewrite Hfr2, Hfr, xsize_elt; lia|].
+      split; [congruence|]. intros _. rewrite last_not_text_snoc. reflexivity.
+  Qed.
+End FrontEnd.
+
+Lemma add_new_root_shape fuel t det F d : Inv t det F -> root t = None ->
+  exists t', add_new fuel t None d = TOk (t', Some (fresh t)) /\ Inv t' det (R (fresh t) d [] :: F) /\
+             fresh t' = fresh t + 1 /\ root t' = Some (fresh t) /\ ~ In (fresh t) (ids_l F) /\
+             heap_of t' (fresh t) = Some (mkN d None None None None).
+Proof.
+  intros HI Hroot. pose proof (inv_fresh_free _ _ _ HI) as Hfree. destruct HI as (HL & Hroots & Hb).
+  set (n := fresh t). set (h1 := upd (heap_of t) n (Some (mkN d None None None None))).
+  assert (HL1 : Links h1 (F ++ [R n d []])) by (apply alloc_forest; assumption).
+  assert (Hnot : ~ In n (ids_l F)) by (intros Hin; specialize (Hb n Hin); unfold n in Hb; lia).
+  unfold add_new, alloc, add_node. fold n h1. cbn [heap_of root]. unfold h1 at 1. rewrite get_upd_same. cbn [bind]. rewrite Hroot.
+  eexists. split; [reflexivity|]. split; [|split; [reflexivity | split; [reflexivity | split; [exact Hnot|]]]].
+  - split; [|split].
+    + cbn [heap_of]. apply Links_perm with (F := F ++ [R n d []]); [apply Permutation_sym, Permutation_cons_append|].
+      eapply Links_ext; [|exact HL1]. intros i. unfold upd. destruct (N.eqb_spec i n) as [->|_]; [|reflexivity].
+      unfold h1. rewrite upd_same. reflexivity.
+    + unfold roots in *. cbn [root map rid]. rewrite Hroot in Hroots. rewrite Hroots. reflexivity.
+    + intros i Hi. cbn [fresh]. rewrite ids_l_cons in Hi. apply in_app_or in Hi as [[<-|[]]|Hi]; [|specialize (Hb i Hi)]; unfold n; lia.
+  - cbn [heap_of]. rewrite upd_same. reflexivity.
+Qed.
+
+(* the whole document: the root element on the empty tree *)
+Theorem fe_doc_builds fuel l name kvs kids :
+  xnf (XElt name kvs kids) = true -> (S (S (xsize (XElt name kvs kids))) <= fuel)%nat ->
+  exists t' n new, fe_doc fuel l (XElt name kvs kids) = TOk (t', Some n) /\ root t' = Some n /\
+    Inv t' [] [R n (xelt_data l name kvs) new] /\ [erase (R n (xelt_data l name kvs) new)] = xdenote l (XElt name kvs kids).
+Proof.
+  intros Hnf Hfu. cbn [xnf] in Hnf. apply andb_prop in Hnf as [Hadj Hnfk]. rewrite xsize_elt in Hfu.
+  assert (HI0 : Inv (ts init_state) [] []).
+  { destruct init_links as (F & HL & Hr & Hb). destruct F; [|discriminate]. split; [exact HL|]. split; [reflexivity | exact Hb]. }
+  unfold fe_doc. rewrite fe_node_elt_unfold. unfold add_xml_elt_with_attrs, add_xml_elt.
+  destruct (resolve_xml_elt l name) as [cp tag] eqn:Eres.
+  set (t0 := mkT (heap_of (ts init_state)) (root (ts init_state)) cp (fresh (ts init_state))).
+  assert (HI00 : Inv t0 [] []) by exact HI0.
+  destruct (add_new_root_shape fuel t0 [] [] (DElt tag []) HI00 eq_refl) as (t1 & Hrun & HI1 & Hfr & Hroot & _ & Hn).
+  rewrite Hrun. cbn [bind]. set (n := fresh t0) in *.
+  set (dn := xelt_data l name kvs).
+  (* attributes *)
+  assert (K : exists t2, (match kvs with
+                          | [] => TOk (t1, Some n)
+                          | _ :: _ => do h <- node_add_xml_attrs l (heap_of t1) n kvs; TOk (with_heap t1 h, Some n)
+                          end) = TOk (t2, Some n) /\ Inv t2 [] [R n dn []] /\ fresh t2 = fresh t1 /\ root t2 = Some n).
+  { unfold dn, xelt_data. rewrite Eres. cbn [snd]. destruct kvs as [|kv kvs].
+    - exists t1. cbn [map]. auto.
+    - unfold node_add_xml_attrs, node_add_attrs. rewrite (get_some _ _ _ Hn). cbn [bind n_data app].
+      eexists. split; [reflexivity|].
+      pose proof (set_data_shape t1 [] [R n (DElt tag []) []] n (R n (DElt tag []) []) (mkN (DElt tag []) None None None None)
+                    (DElt tag (map (fun kv0 => resolve_xml_attr l (fst kv0) (snd kv0)) (kv :: kvs))) HI1) as H.
+      cbn [rkids replace_l map replace_t] in H. rewrite N.eqb_refl in H.
+      split; [apply H; [rewrite find_l_cons, find_t_unfold, N.eqb_refl; reflexivity | exact Hn | reflexivity]|].
+      cbn [fresh with_heap root]. auto. }
+  destruct K as (t2 & Hrun2 & HI2 & Hfr2 & Hroot2). rewrite Hrun2. cbn [bind].
+  assert (Hfn : find_l n [R n dn []] = Some (R n dn [])) by (rewrite find_l_cons, find_t_unfold, N.eqb_refl; reflexivity).
+  assert (Hall : Forall (fe_item_ok fuel l []) kids) by (apply Forall_forall; intros k _; apply fe_node_builds).
+  destruct (fe_kids_ok fuel l [] n dn eq_refl kids Hall t2 _ [] HI2 Hfn Hadj Hnfk) as (t3 & new & Hrun3 & HI3 & Her & Hfr3 & Hroot3);
+    [reflexivity | unfold fuel_of; rewrite Hfr2, Hfr; cbn [fresh t0 init_state ts]; cbn; lia |].
+  rewrite Hrun3. cbn [bind fst snd app replace_l map replace_t] in *. rewrite N.eqb_refl in HI3.
+  (* end_element of the root: current stays *)
+  destruct HI3 as (HL3 & Hr3 & Hb3). pose proof HL3 as (HF3 & _). apply Forall_cons_iff in HF3 as [Hrep _].
+  apply rep_t_unfold in Hrep as [Hnn _]. rewrite (get_some _ _ _ Hnn). cbn [bind n_parent].
+  exists t3, n, new. split; [reflexivity|]. split; [congruence|]. split; [exact (conj HL3 (conj Hr3 Hb3))|].
+  cbn [erase xdenote]. unfold dn, xelt_data. rewrite Her. reflexivity.
+Qed.
+
+(* a tree built through the API, by any history, whose shape is the document's denotation is walked by the encoders
+   exactly as the tree the XML front end builds for that document *)
+Theorem api_tree_walks_like_parsed_tree fuel l name kvs kids c tr :
+  xnf (XElt name kvs kids) = true -> (S (S (xsize (XElt name kvs kids))) <= fuel)%nat ->
+  CLinks c -> tree_of c = Some tr -> [erase tr] = xdenote l (XElt name kvs kids) ->
+  exists t' n, fe_doc fuel l (XElt name kvs kids) = TOk (t', Some n) /\
+    enc_walk (S (fuel_of (ts c))) (heap_of (ts c)) (root (ts c)) = enc_walk (S (fuel_of t')) (heap_of t') (root t').
+Proof.
+  intros Hnf Hfu HC Htr Hsh.
+  destruct (fe_doc_builds fuel l name kvs kids Hnf Hfu) as (t' & n & new & Hrun & Hroot & HI & Hden).
+  exists t', n. split; [exact Hrun|].
+  set (c2 := mkC t' []).
+  assert (HC2 : CLinks c2) by (apply CLinks_Inv; eexists; exact HI).
+  assert (Ht2 : tree_of c2 = Some (R n (xelt_data l name kvs) new)).
+  { unfold tree_of. rewrite (abs_forest_inv c2 _ HI). cbn [ts c2]. rewrite Hroot. reflexivity. }
+  apply (equal_shapes_equal_walks c c2 tr _ HC HC2 Htr Ht2). rewrite <- Hden in Hsh. injection Hsh as ->. reflexivity.
 Qed.
